@@ -30,7 +30,8 @@ def sweep(cases, tree, rng, tag, extra=16, fmts=(1, 0), pats=None):
         pat = rng.randrange(3) if pats is None else pats
         tid = '%s|%d|%d' % (line, fmt, pat)
         for n in [-1] + list(range(0, L + extra + 1)):
-            cases.append(Case('prealloc %d %d %d %s' % (n, fmt, pat, line),
+            cfmt = fmt if not fmt or (n * 7 + pat) % 5 else [4, 255, 256, -1, 2][(n + pat) % 5]    # cJSON_bool is an int: every non-zero value means 'formatted'
+            cases.append(Case('prealloc %d %d %d %s' % (n, cfmt, pat, line),
                               {'tags': [tag, 'fmt' if fmt else 'unfmt', 'printable' if txt is not None else 'unprintable'], 'tid': tid, 'n': n, 'fmt': fmt, 'tree': tree}))
 
 def generate(ctx):
